@@ -13,10 +13,11 @@ import vlib  # noqa: E402
 def load_props():
     out = []
     pd = os.path.join(HERE, "props")
+    integrated = set(open(os.path.join(pd, "INTEGRATED")).read().split())
     for pid in sorted(os.listdir(pd)):
         path = os.path.join(pd, pid, "check.py")
         # only integrated (claimed) properties take part in setup: work in progress must not break it
-        if not os.path.exists(path) or not os.path.exists(os.path.join(pd, pid, "manifest.json")):
+        if pid not in integrated or not os.path.exists(path) or not os.path.exists(os.path.join(pd, pid, "manifest.json")):
             continue
         spec = importlib.util.spec_from_file_location("prop_" + pid, path)
         mod = importlib.util.module_from_spec(spec)
